@@ -52,11 +52,12 @@ def drivers_only(ctx):
     ctx.sample({"recorded_trace_prefix": r["sample"][:4]})
     validate(ctx, t, "patterns")
     ctx.exhaustive = thorough
-    # HashedWrite over a sink that accepts only part of a buffer per write call (set VERIF_C06_SHORT_SINK=0 to leave
-    # this probe out)
-    short_sink = 0 if os.environ.get("VERIF_C06_SHORT_SINK", "1") == "0" else 1
-    ctx.notes["short_sink_probe"] = bool(short_sink)
-    plan = [("random", dict(n=24 * k, big=20000)), ("data", dict(n=6 * k, short_sink=short_sink)), ("xorb", dict(n=40 * k))]
+    plan = [("random", dict(n=24 * k, big=20000)), ("data", dict(n=6 * k)), ("xorb", dict(n=40 * k))]
+    # HashedWrite over a sink that accepts only part of a buffer per write call (std::io::Write allows short writes and
+    # write_all retries with the rest); a trace of its own.  VERIF_C06_SHORT_SINK=0 leaves this probe out.
+    if os.environ.get("VERIF_C06_SHORT_SINK", "1") != "0":
+        plan.append(("sink", dict(n=5 * k)))
+    ctx.notes["short_sink_probe"] = plan[-1][0] == "sink"
     for i, (mode, kw) in enumerate(plan):
         t = os.path.join(w, "%s.ndjson" % mode)
         r = vlib.xv("merkle", mode=mode, seed=ctx.seed + 100 * (i + 1), out=t, **kw)
